@@ -539,7 +539,11 @@ def run(ctx):
                 if not so[0].split()[1].startswith("bad") and impl[0].split()[0] != so[0].split()[0]:
                     ctx.violation("divergence", dict(r, impl=impl, spec=so))
         else:
-            keys = [norm_dump(x) for x in impl] if r.get("compare") == "normalised" else [" ".join(x.split()[:5]) for x in impl]
+            if r.get("compare") == "long-name":
+                import re as _re
+                keys = [_re.sub(r"a{3,}", "A", x.split(" ", 2)[2]) for x in impl]
+            else:
+                keys = [norm_dump(x) for x in impl] if r.get("compare") == "normalised" else [" ".join(x.split()[:5]) for x in impl]
             if rc != 0 or len(set(keys)) != 1:
                 ctx.violation("chunk-dependence", dict(r, impl=impl))
         return
@@ -674,8 +678,15 @@ def run(ctx):
                                            "what": "more characters delivered than the input has before the ill-formed bytes"})
                 elif n_impl < n_spec:
                     fa_class += 1
+        elif status == "truncated":
+            # the input ends inside a character: everything before it is delivered, then Trans_BadSrcSeq (repair of F2)
+            if impl[i] != g + " !Trans_BadSrcSeq":
+                spec_bad += 1
+                if spec_bad <= 3:
+                    ctx.violation("spec", {"request": reqs[i], "impl": impl[i], "spec": so,
+                                           "what": "input ending inside a character: expected all complete characters, then Trans_BadSrcSeq"})
         else:
-            if impl[i].split()[0] != g:
+            if impl[i] != g:
                 spec_bad += 1
                 if spec_bad <= 3:
                     ctx.violation("spec", {"request": reqs[i], "impl": impl[i], "spec": so,
@@ -1172,6 +1183,47 @@ def run(ctx):
                                                        "kind": "lowwater", "what": "same document, different read sizes: different dump"})
     ctx.coverage["low_water_alignment"] = {"documents": len(lgroups), "parses": len(llines), "differing": nlw_bad}
     ctx.note("low-water alignment: %d documents, %d parses, %d differing, %.1fs" % (len(lgroups), len(llines), nlw_bad, time.time() - t3e))
+    # ---- 3f. element names LONGER than the character buffer with a supplementary character at the buffer end: the end tag is
+    #          matched by skippedStringLong, which works through a full buffer; a surrogate pair that does not fit the last
+    #          free slot must not be mistaken for "no more input" (finding FC)
+    t3f = time.time()
+    nlines = []
+    nmeta = []
+    for codec in ("utf-8", "utf-16-le"):
+        for k in [10] + list(range(CBd - 6, CBd + 7)) + list(range(2 * CBd - 3, 2 * CBd + 4)):
+            name = "a" * k + "\U00020000" + "b" * 30
+            docu = ("\ufeff" if codec != "utf-8" else "") + "<" + name + ' x="1">t<e/></' + name + ">"
+            nmeta.append((codec, k))
+            nlines.append("doc %s1f mem 0 %s" % ("IWDS"[k % 4], hx(docu.encode(codec))))
+    rc, nout, nerr_ = run_bin(xh, nlines, env=henv, timeout=600)
+    import re as _re
+    fc = ctx.find_known("FC")
+    fc_hits = []
+    if rc != 0 or len(nout) != len(nlines):
+        ctx.violation("harness-crash", {"what": "document-level harness crashed on the long-name documents", "rc": rc, "stderr": nerr_})
+    else:
+        nn = lambda l: _re.sub(r"a{3,}", "A", l.split(" ", 2)[2]) if len(l.split(" ", 2)) > 2 else l
+        base = {}
+        for (codec, k), l in zip(nmeta, nout):
+            if k == 10:
+                base[codec] = nn(l)
+        for j, ((codec, k), l) in enumerate(zip(nmeta, nout)):
+            ctx.count()
+            if nn(l) != base[codec]:
+                if fc and k + 2 >= CBd - 1:
+                    fc_hits.append((codec, k, l.split()[4][:60]))
+                else:
+                    ctx.violation("alignment-dependence", {"requests": [nlines[nmeta.index((codec, 10))], nlines[j]], "template": "long-name",
+                                                           "padding": k, "baseline": base[codec][:300], "padded": nn(l)[:300],
+                                                           "compare": "long-name",
+                                                           "what": "a well-formed document whose element name is longer than the character "
+                                                                   "buffer is rejected / reported differently depending on where a "
+                                                                   "supplementary character of the name falls"})
+    if fc_hits:
+        ctx.known_finding("FC", "element name of kCharBufSize-1 (or 2*kCharBufSize-1) characters followed by a supplementary character: the "
+                          "well-formed document is rejected (%s); %d of %d long-name documents" % (fc_hits[0][2], len(fc_hits), len(nlines)))
+    ctx.coverage["long_names"] = {"documents": len(nlines), "known_FC_hits": len(fc_hits)}
+    ctx.note("long names: %d documents, %d in known class FC, %.1fs" % (len(nlines), len(fc_hits), time.time() - t3f))
     ctx.coverage["document_level"] = {"documents": len(groups), "parses": len(dlines) + nstdin, "documents_with_errors": nerr,
                                       "violations": dviol, "stdin_parses": nstdin, "kinds": dk}
     ctx.note("document-level: %d documents, %d parses, %d differing, %.1fs" % (len(groups), len(dlines) + nstdin, dviol,
